@@ -422,7 +422,7 @@ func TestVerifC15(t *testing.T) {
 				if k := strings.Index(p, "/"); k >= 0 {
 					lines = append(lines, p[:k]+"/*")
 				} else {
-					lines = append(lines, "?"+base[1:])
+					lines = append(lines, "?"+string([]rune(base)[1:])) // rune boundary: an invalid UTF-8 pattern does not compile
 				}
 			default:
 				lines = append(lines, "  "+p+"\t")
